@@ -54,7 +54,21 @@ Theorem C01_lower_to_memory_never_panics : forall canon t,
   ok_with (lower_to_memory canon t) gst0 (fun _ s' => stack s' = []).
 Proof. exact lower_to_memory_never_panics. Qed.
 
+(** Memory form, lifting side: for EVERY type, address operand and offset the memory-mode lifting reaches no panic
+    site and pushes exactly one operand (the lifted value) on top of the untouched stack; the public entry point
+    lift_from_memory always completes with exactly one operand. *)
+Theorem C01_memory_lifting_produces_one_operand : forall canon t addr off s st,
+  stack s = st ->
+  ok_with (read canon t addr off) s (fun _ s' => exists v, stack s' = v :: st /\ frame s s').
+Proof. exact read_ok. Qed.
+
+Theorem C01_lift_from_memory_never_panics : forall canon t,
+  ok_with (lift_from_memory canon t) gst0 (fun _ s' => exists v, stack s' = [v]).
+Proof. exact lift_from_memory_never_panics. Qed.
+
 Print Assumptions C01_flat_types_exact.
+Print Assumptions C01_memory_lifting_produces_one_operand.
+Print Assumptions C01_lift_from_memory_never_panics.
 Print Assumptions C01_memory_lowering_consumes_its_operand.
 Print Assumptions C01_lower_to_memory_never_panics.
 Print Assumptions C01_size_is_canonical.
